@@ -63,6 +63,24 @@ def CState.name : CState → String
   | .stopped => "Stopped" | .connecting => "Connecting" | .connected => "Connected"
   | .pendingReconnect => "PendingReconnect" | .shutdown => "Shutdown"
 
+/-- lifecycle events delivered to the application's listeners (`ClientEvent`) -/
+inductive CEvent where
+  | attempt
+  | failure (kind : String)
+  | success (sessionPresent : Bool)
+  | disconnection (kind : String)
+  | stopped
+  | publish (qos : Nat)
+  deriving Repr, BEq, DecidableEq, Inhabited
+
+def CEvent.text : CEvent → String
+  | .attempt => "Attempt"
+  | .failure k => s!"Failure.{k}"
+  | .success sp => s!"Success.sp{if sp then 1 else 0}"
+  | .disconnection k => s!"Disconnection.{k}"
+  | .stopped => "Stopped"
+  | .publish q => s!"Publish.{q}"
+
 structure Client where
   eng : Engine
   current : CState := .stopped
@@ -75,12 +93,12 @@ structure Client where
   /-- `successful_connect_time.is_some()` -/
   connectedAt : Bool := false
   backoff : Backoff := {}
-  events : List String := []
+  events : List CEvent := []
   comps : List (Nat × Completion) := []
   nextUser : Nat := 0
   deriving Repr, Inhabited
 
-def Client.emit (c : Client) (ev : String) : Client := { c with events := c.events ++ [ev] }
+def Client.emit (c : Client) (ev : CEvent) : Client := { c with events := c.events ++ [ev] }
 
 /-- `apply_error` -/
 def Client.applyError (c : Client) (kind : String) : Client :=
@@ -111,7 +129,7 @@ def Client.handleOp (c : Client) (op : ClientOp) : Client :=
       { c2 with desired := .stopped }
   | .close =>
     let (c1, _) := c.engStep (.reset 0)
-    { c1 with desired := .shutdown }
+    { c1 with stopOpts := none, desired := .shutdown }
   | .publish p =>
     let (c1, _) := c.engStep (.user 0 (.publish p c.nextUser none))
     { c1 with nextUser := c.nextUser + 1 }
@@ -120,11 +138,11 @@ def Client.handleOp (c : Client) (op : ClientOp) : Client :=
 def Client.dispatchEvents (c : Client) (evs : List Packet) : Client :=
   evs.foldl (fun c ev =>
     match ev with
-    | .publish p => c.emit s!"Publish.{p.qos}"
+    | .publish p => c.emit (.publish p.qos)
     | .disconnect _ => c
     | .connack k =>
       let c1 := { c with lastConnack := some (k.reasonCode = 0) }
-      if k.reasonCode = 0 then { c1 with connectedAt := true }.emit s!"Success.sp{if k.sessionPresent then 1 else 0}" else c1
+      if k.reasonCode = 0 then { c1 with connectedAt := true }.emit (.success k.sessionPresent) else c1
     | _ => c) c
 
 def resKind : Res → Option String
@@ -170,19 +188,41 @@ def Client.computeTransition (c : Client) : Option CState :=
   | .shutdown => none
 
 def Client.emitFailure (c : Client) : Client :=
-  { c with lastError := none }.emit s!"Failure.{c.lastError.getD "ConnectionEstablishmentFailure"}"
+  { c with lastError := none }.emit (.failure (c.lastError.getD "ConnectionEstablishmentFailure"))
 
 def Client.emitDisconnection (c : Client) : Client :=
-  { c with lastError := none }.emit s!"Disconnection.{c.lastError.getD "ConnectionClosed"}"
+  { c with lastError := none }.emit (.disconnection (c.lastError.getD "ConnectionClosed"))
 
-/-- `transition_to_state`; `lastedLong` tells whether the connection lasted longer than the stability
-    period (wall-clock measurement supplied by the environment).  Returns the engine's verdict. -/
+/-- the target `transition_to_state` really moves to: a reconnect wait is not entered once the user wants
+    something else, and Stopped becomes Shutdown when the client is being closed -/
+def finalTargetOf (desired target : CState) : CState :=
+  let t1 := if target == .pendingReconnect && desired != .connected then CState.stopped else target
+  if t1 == .stopped && desired == .shutdown then CState.shutdown else t1
+
+def Client.finalTarget (c : Client) (target : CState) : CState := finalTargetOf c.desired target
+
+/-- the bookkeeping and event emission of `transition_to_state` once the engine has been notified -/
+def Client.applyTransition (c1 : Client) (old t2 : CState) (lasted : Option Nat) : Client :=
+  let c2 := if t2 == .connecting then
+      { c1 with stopOpts := none, lastError := none, lastConnack := none }.emit .attempt
+    else c1
+  let c3 := if old == .connecting && t2 != .connected then c2.emitFailure else c2
+  let c4 := if old == .connected then
+      let c' := (match c3.lastConnack with
+        | some true => c3.emitDisconnection
+        | _ => c3.emitFailure)
+      { c' with backoff := c'.backoff.onConnectionEnd (if c'.connectedAt then lasted else none), connectedAt := false }
+    else c3
+  let c5 := if t2 == .stopped then { c4 with stopOpts := none }.emit .stopped else c4
+  { c5 with current := t2 }
+
+/-- `transition_to_state`; `lasted` is the time since the successful CONNACK (wall-clock measurement
+    supplied by the environment).  Returns the engine's verdict. -/
 def Client.transitionTo (c : Client) (target : CState) (lasted : Option Nat) : Client × Res :=
   let old := c.current
   if old == target then (c, .ok)
   else
-    let t1 := if target == .pendingReconnect && c.desired != .connected then CState.stopped else target
-    let t2 := if t1 == .stopped && c.desired == .shutdown then CState.shutdown else t1
+    let t2 := c.finalTarget target
     -- engine notification
     let (c1, r) : Client × Res :=
       if t2 == .connected then
@@ -193,18 +233,6 @@ def Client.transitionTo (c : Client) (target : CState) (lasted : Option Nat) : C
         (c', o.result)
       else (c, .ok)
     if !r.isOk then (c1, r)
-    else
-      let c2 := if t2 == .connecting then
-          { c1 with stopOpts := none, lastError := none, lastConnack := none }.emit "Attempt"
-        else c1
-      let c3 := if old == .connecting && t2 != .connected then c2.emitFailure else c2
-      let c4 := if old == .connected then
-          let c' := (match c3.lastConnack with
-            | some true => c3.emitDisconnection
-            | _ => c3.emitFailure)
-          { c' with backoff := c'.backoff.onConnectionEnd (if c'.connectedAt then lasted else none), connectedAt := false }
-        else c3
-      let c5 := if t2 == .stopped then { c4 with stopOpts := none }.emit "Stopped" else c4
-      ({ c5 with current := t2 }, .ok)
+    else (c1.applyTransition old t2 lasted, .ok)
 
 end GV
